@@ -226,6 +226,8 @@ inline int sched_main(int argc, char** argv, harness& H) {
     if (st) {
       st->inc("programs");
       st->inc(ds.complete ? "programs_dfs_complete" : "programs_dfs_capped");
+      st->inc("programs_complete_to_preemptions." + std::to_string(ds.complete ? ep.dfs_p : (ds.complete_levels ? ds.complete_levels - 1 : 0)) +
+              (ds.complete_levels == 0 && !ds.complete ? "_partial" : ""));
       st->inc("dfs_executions", ds.executions);
     }
     if (!ok) return EXIT_VIOLATED;
